@@ -40,10 +40,10 @@ theorem encK_eq (m : Mapper) (useNs : Bool) (f : Facts) (name : String) (obj : J
     clause about the children's names (they are not un-mapped with this element's mapper) -/
 structure WF1K {α : Type} (m : Mapper) (f : Facts) (hd : Hd) (its : List (Item α)) : Prop where
   tag : m.um (m.mp hd.tag) = hd.tag
-  attrsUm : ∀ kv ∈ hd.attrs, m.umA (m.mp kv.1) = kv.1
+  attrsUm : ∀ kv ∈ hd.attrs, m.umA (m.mpA kv.1) = kv.1
   attrsNodup : ((attrPairs m hd).map (·.1)).Nodup
   attrsNodup' : (hd.attrs.map (·.1)).Nodup
-  attrsNotXmlns : ∀ kv ∈ hd.attrs, isXmlnsKey (m.mp kv.1) = false
+  attrsNotXmlns : ∀ kv ∈ hd.attrs, isXmlnsKey (m.mpA kv.1) = false
   xmlnsNodup : ((xmlnsEntries "" hd.xmlns).map (·.1)).Nodup
   textOk : ∀ t, hd.text = some t → t.isMap = false ∧ t.isNull = false
   textStr : ∀ t, hd.text = some t → f.simple = false → t.isSeq = false
